@@ -2,6 +2,7 @@
 import random
 
 import puan
+import puan.modules.configurator  # noqa: subclasses must be loaded before monitors are attached to their overrides
 
 from .. import adapters, monitor, refmodel, recipes
 
